@@ -34,12 +34,11 @@ THEOREMS = [
     "C18_discover_exact_general",
     "C18_root_marker_dir_lost_refuted",
     "C18_root_always_eligible",
-    "C18_discover_order_free_partial",
+    "C18_discover_order_free",
     "C18_perm_same_tree",
-    "C18_discover_perm_free_partial",
-    "C18_root_marker_dirs_order_refuted",
-    "C18_schedule_free_partial",
-    "C18_exit_hang_refuted",
+    "C18_discover_perm_free",
+    "C18_schedule_free",
+    "C18_exit_is_failed_project",
     "C18_offered_exact_partial",
     "C18_sequential_raises",
 ]
@@ -63,23 +62,23 @@ ASSUMPTIONS = [
     "the repository path is not the filesystem root '/'",
     "unreadable directories (os.walk onerror) and trees that change during the walk are outside the model",
     "thread scheduling is modelled as two arbitrary permutations (execution order of the workers, delivery order of results)",
-    "concurrent analyses do not interfere (false of the unchanged code: known finding C18-parallel-analysis-races; T2 serialises _extract_metadata)",
+    "concurrent analyses do not interfere: the repaired code holds a process-wide lock around _extract_metadata (T1 reads it; without it the harness serialises _extract_metadata itself)",
     "project names are pairwise distinct in T2, so get_candidates(None) order is the order of _add_distribution calls",
 ]
-LEVEL_TEXT = ("Fifteen theorems over a Gallina model of _find_all_source_dirs (pruned os.walk on string paths) and of the two-pass, "
+LEVEL_TEXT = ("Fourteen theorems over a Gallina model of _find_all_source_dirs (pruned os.walk on string paths) and of the two-pass, "
               "optionally threaded collection, for ALL trees, excluded paths, marker sets, analysis outcomes and schedules: soundness "
-              "(everything offered is a project root by path components, unguarded), exactness inside one decidable guard (since "
-              "ca4e69e exclusion is by whole components: proved equal to the code's string test, no sibling sharing a name prefix is "
-              "lost), unguarded characterisation of the code, root eligibility, independence of the listing order "
-              "(same-tree and permutation-at-any-depth forms, guarded), independence of the worker schedule (guarded), and three "
-              "_refuted witnesses replayed on /repo on every run: a marker directory of the root is taken out although nothing "
-              "disqualifies it; two marker directories in the root make the result follow the listing order; a SystemExit in a pool worker hangs the "
-              "threaded constructor.  Tied to /repo by generated tables, a literal shape check of the three methods and differential "
-              "execution on trees materialised on disk (walk order, candidate sets and orders for parallelism 1 and 4).")
+              "(everything offered is a project root by path components), the code's string exclusion test equals exclusion by whole "
+              "components (no sibling sharing a name prefix is lost), exactness inside one decidable guard plus an unguarded "
+              "characterisation of the code, root eligibility, independence of the listing order (same-tree and permutation-at-any-"
+              "depth forms, unguarded), independence of the worker schedule for all analysis outcomes (unguarded; a SystemExit is a "
+              "failed project), and one _refuted witness replayed on /repo on every run: marker-named directories directly under "
+              "the root are not entered although the statement does not disqualify them.  Tied to /repo by generated tables, a "
+              "literal shape check of the methods and differential execution on trees materialised on disk (walk order, candidate "
+              "sets and orders for parallelism 1 and 4).")
 LEVEL_NOTE = ("Trusted: Coq kernel, extraction, OCaml driver, T1 reader, T2 harness; os.walk / ThreadPool semantics are validated by T2 "
               "only; the analysis outcome per directory is an oracle input measured on the real code; real thread interleavings are "
-              "sampled with _extract_metadata serialised by the harness (unserialised, the analysis code's process-wide monkey-"
-              "patching makes parallelism>1 nondeterministic: listed known finding), the theorem covers all schedules of the model.")
+              "sampled (the repaired code runs one analysis at a time under its own lock; for a tree without that lock the harness "
+              "serialises _extract_metadata itself), the theorem covers all schedules of the model.")
 TECHNIQUE = "Rocq proof over Gallina model (structural induction on rose trees, Permutation algebra) + extraction-based differential correspondence on on-disk trees"
 
 VBASE = "/B"          # virtual parent directory of every generated repository root
@@ -459,7 +458,8 @@ def run_impl(case: Dict[str, Any], casedir: str, mode: str) -> Dict[str, Any]:
                 # metadata extractors monkey-patch os / os.path.exists / io / sys process-wide while
                 # they run, so an unserialised neighbour sees fakes -- even the deferral test
                 # os.path.exists(join(d, "setup.py")) of _extract_metadata itself answers wrongly at
-                # random (known finding C18-parallel-analysis-races; C13's subject).
+                # random (finding C18-parallel-analysis-races; C13's subject).  Only used when the code
+                # under test does not hold its own lock (tr_c18: analysis_serialised = false).
                 import threading
                 lock = threading.Lock()
                 real_em = SourceRepository._extract_metadata
@@ -603,6 +603,20 @@ def _forked(case: Dict[str, Any], casedir: str, attempts: int, mode: str, deadli
     return out
 
 
+_SERIALISED: List[Optional[bool]] = [None]
+
+
+def code_serialises_analysis() -> bool:
+    """T1's reading of _extract_metadata: does the code under test run one analysis at a time?  If it
+    does not (the unrepaired code), the harness serialises _extract_metadata itself (mode "par")."""
+    if _SERIALISED[0] is None:
+        try:
+            _SERIALISED[0] = bool(tr_c18.read_source()["analysis_serialised"])
+        except Exception:
+            _SERIALISED[0] = False
+    return _SERIALISED[0]
+
+
 def run_worker(ctx: "Ctx", cases: List[Dict[str, Any]], tag: str, par_mode: str = "par", attempts: int = 1) -> List[Dict[str, Any]]:
     """Materialise (first process to need a case does it: the sequential one runs first for a moment,
     then both run side by side) and run the real code: one process for walk / parallelism=1 / analysis,
@@ -620,6 +634,8 @@ def run_worker(ctx: "Ctx", cases: List[Dict[str, Any]], tag: str, par_mode: str 
         casedir.mkdir(exist_ok=True)
         _prepare(case, str(casedir))
     procs = []
+    if par_mode == "par" and code_serialises_analysis():
+        par_mode = "raw"      # the code under test holds its own lock: run it as it is
     for mode in ("seq", par_mode):
         inp, outp = d / f"in-{mode}.json", d / f"out-{mode}.json"
         inp.write_text(json.dumps({"dir": str(d), "cases": cases, "mode": mode, "attempts": attempts}))
@@ -1034,9 +1050,6 @@ def order_check(ctx: "Ctx", case: Dict[str, Any], tag: str) -> Optional[str]:
     for c, r in zip(variants, res):
         if "error" in r:
             return None
-        ok, _ = in_guard(c, r["tree"])
-        if not ok:
-            return None
         sets.append((c["order"], sorted(r["walk"]), sorted(r["cand1"][1]) if r["cand1"][0] == "OK" else "EXC"))
     if len({json.dumps(s[1:]) for s in sets}) > 1:
         return "offered set depends on the listing order: " + json.dumps(sets)
@@ -1095,13 +1108,18 @@ def replay_known(ctx: "Ctx", entry: Dict[str, Any]) -> Optional[bool]:
         # fixed by ca4e69e: True (= the defect is back) iff the sibling is lost again
         return data["lost"] not in r["walk"] or data["lost"] not in (r["cand1"][1] if r["cand1"][0] == "OK" else [])
     if data["kind"] == "order-dependent":
+        # fixed: True (= the defect is back) iff the two listing orders give different sets again
         return sorted(res[0]["walk"]) != sorted(res[1]["walk"])
     if data["kind"] == "hang":
-        return r["cand1"][0] == "EXC" and r["cand1"][1] == "SystemExit" and r["cand4"][0] == "HANG"
+        # fixed: True iff a SystemExit out of a build backend again escapes / hangs the constructor
+        return r["cand1"][0] != "OK" or r["cand4"][0] != "OK" or sorted(r["cand1"][1]) != sorted(r["cand4"][1])
+    if data["kind"] == "marker-dir-not-entered":
+        return data["lost"] not in r["walk"]
     if raw:
+        # fixed: True iff an unserialised parallel run differs from the sequential one again
         seq = ["OK", sorted(r["cand1"][1])] if r["cand1"][0] == "OK" else [r["cand1"][0]]
         runs = [["OK", sorted(x[1])] if x[0] == "OK" else [x[0]] for x in (r.get("runs4") or [])]
-        ctx.extra["raw_parallel_runs"] = {"sequential": seq, "parallelism4_unserialised": runs}
+        ctx.extra["raw_parallel_runs"] = {"sequential": seq, "parallelism4_as_is": runs}
         return any(x != seq for x in runs)
     return None
 
